@@ -90,6 +90,13 @@ PROPS = {
              "filter's callback), keeps a legitimate session at each, and every filter's own session is probed 2 s before and after that filter's own limits; "
              "non-trivial = a session of one filter was presented to another; distinct = canonical event trace",
              {"runs": 4000, "budget_s": 30}, {"runs": 400000, "budget_s": 900}, must={"all": ["foreign-session-presented", "own-limits-probed"]}),
+    "C19": P("plans = 1-4 filters mapped to Secret names (shared, distinct, inline secret, explicit own namespace; every tenth plan a cross-namespace reference that start-up must refuse) and histories of "
+             "set / delete / delete-with-finalizer / remove-key / empty events on referenced and unrelated Secrets in the own and another namespace, delivered by the simulator as reconcile requests "
+             "with duplication, delay and reordering, interleaved with logins and refreshes; reference = map secret name -> last non-empty value at a completed reconcile; judged at the token endpoint "
+             "(Basic header on the code grant, client_secret form member on the refresh grant) and on every filter's configuration after each reconcile; "
+             "non-trivial = a token request was made after a completed reconcile (or a cross-namespace start-up was judged); distinct = canonical event trace",
+             {"runs": 4000, "budget_s": 30}, {"runs": 400000, "budget_s": 900},
+             must={"all": ["token-requests-after-reconcile", "runs-with-rotation", "cross-namespace-start-ups", "k8s-event:deleting", "k8s-event:remove-key", "k8s-event:empty", "k8s-event:delete"]}),
 }
 
 
